@@ -1,6 +1,7 @@
 import Driver.Json
 import OomdModel.Kill
 import OomdModel.Path
+import OomdModel.FsRead
 
 /-! Driver glue for engine `h_kill` (C01, C03, C04, C17).  Scenario + implementation trace in, verdict out.
 
@@ -206,6 +207,8 @@ def implOfTick (ms : List Meta) (tk : Json) : Impl := Id.run do
   let mut writes : Array Int := #[]
   let mut pidfd : Array Nat := #[]
   let mut mrel : Array Nat := #[]
+  let mut fresh : Array (Option Bool) := #[]      -- the kernelkill branch's own reads of cgroup.events
+  let mut afterFreeze : Option Nat := none        -- a freeze write to this cgroup was the last effect
   let killsDelta := jint tk "kills_delta"
   let mut statPlaced := false
   for e in jarr tk "events" do
@@ -256,10 +259,19 @@ def implOfTick (ms : List Meta) (tk : Json) : Impl := Id.run do
       if rc ≥ 0 && jstr e "data" != "1" then im := { im with unknown := im.unknown ++ ["write:data"] }
       if f == Generated.fileCgroupFreeze then
         evs := evs.push (.write cg .freeze rc); writes := writes.push rc
+        afterFreeze := some cg
       else if f == Generated.fileCgroupKill then
         evs := evs.push (.write cg .kill rc); writes := writes.push rc
         if rc ≥ 0 && jhas e "nprocs" && jint e "nprocs" == 0 then im := { im with emptyKills := cg :: im.emptyKills }
       else im := { im with unknown := im.unknown ++ ["write:" ++ f] }
+    else if ev == "events" then
+      -- a read of cgroup.events: the one that follows the freeze write of the same cgroup is the kernelkill branch's fresh
+      -- read (an answer of the environment, not an effect); the others fill the tick's cache, which the scenario describes
+      if afterFreeze == some (jint e "cg").toNat then
+        let r := if isNull (jobj e "lines") then none
+          else (OomdModel.FsRead.readIsPopulated ((jstrs e "lines").map String.toList)).toOption
+        fresh := fresh.push r
+        afterFreeze := none
     else if ev == "pidfd_open" then
       evs := evs.push (.pidfdOpen (jint e "pid") (jnat e "rc")); pidfd := pidfd.push (jnat e "rc")
     else if ev == "mrelease" then
@@ -299,7 +311,8 @@ def implOfTick (ms : List Meta) (tk : Json) : Impl := Id.run do
   | none => pure ()
   return { im with evs := evs.toList,
                    env := { procs := procs.toList, killRc := killRc.toList, xattr := xattr.toList,
-                            writes := writes.toList, pidfd := pidfd.toList, mrelease := mrel.toList } }
+                            writes := writes.toList, pidfd := pidfd.toList, mrelease := mrel.toList,
+                            events := fresh.toList } }
 
 def retOfStr (s : String) : Option Ret :=
   if s == "CONTINUE" then some .cont else if s == "STOP" then some .stop
@@ -742,7 +755,7 @@ def handle (j : Json) : Json := Id.run do
         let (mevs, mret, rankOk) := modelTick sc c open_
         -- swap stream: the world changes while run() executes, which the model does not describe; only the property clauses
         -- are evaluated on such a trace
-        let swapped := (jhas sc "swap_at_kill" && jbool run "swapped") || (jhas sc "empty_at_attempt" && !(jarr run "emptied").isEmpty)
+        let swapped := jhas sc "swap_at_kill" && jbool run "swapped"
         let same := swapped || (sameEvents mevs c.impl.evs && some mret == retOfStr c.ret && c.impl.unknown.isEmpty && rankOk)
         if !same then
           accepts := false
